@@ -227,6 +227,26 @@ class Prop(BaseProp):
                     res.count("titles_compared_for_injectivity")
             res.sig = sig_hash([sep, ext_t, ext_m, len(headers), prefix_src, prefix, tree.shape(),
                                 sorted((k, bool(v), bool(v and v["name"])) for k, v in mdocs.items())])
+            if idx % 4 == 1 and not multi:
+                # the same pages printed to standard output (no -o): each page's title block and module directive are there
+                argv_so = [a for k_, a in enumerate(base_argv) if a != "-o" and (k_ == 0 or base_argv[k_ - 1] != "-o")]
+                o_so = runner.run_main([spelled, "-r"] + argv_so, cwd=cwd, home=home)
+                res.count("stdout_runs")
+                if not o_so.ok:
+                    res.violate("stdout-run-failed", str(o_so.exc)[:200], wit)
+                else:
+                    so = o_so.stdout.replace("\r\n", "\n")
+                    for p in ref.pages:
+                        base = eff_prefix + sep + p
+                        et, em = (base if ext_t else strip_ext(base)), (base if ext_m else strip_ext(base))
+                        if mdocs[p] and mdocs[p]["name"]:
+                            et = em = mdocs[p]["name"]
+                        fr = headers[0] * len(et)
+                        res.count("stdout_pages_checked")
+                        if f"\n{fr}\n{et}\n{fr}\n" not in "\n" + so:
+                            res.violate("title-text:stdout", f"no title block {et!r} on standard output for {p}", dict(wit, stdout=so[:1500]))
+                        elif f"\n.. module:: {em}\n" not in so:
+                            res.violate("module-name:stdout", f"no '.. module:: {em}' on standard output for {p}", dict(wit, stdout=so[:1500]))
             if multi and o.ok:
                 for relp, pfx, base_name in (("s_one.rst", prefix if prefix is not None else "second", "s_one.cmake"),
                                             ("s_sub/s_two.rst", prefix if prefix is not None else "second", "s_sub/s_two.cmake"),
